@@ -2,6 +2,7 @@
    populations, tie patterns, both directions, ANY valid argsort permutation (unstable sorts included). *)
 From Coq Require Import ZArith List Bool Arith Permutation Sorting Lia.
 From HV Require Import Ord ListX Select SelectFacts.
+From HV Require Import GenPop GenEquivPop.
 Import ListNotations.
 Local Open Scope Z_scope.
 
@@ -53,3 +54,27 @@ Proof.
     apply perm_skip. apply Permutation_cons_app with (l1 := [1%nat]) (l2 := []). simpl. apply Permutation_refl.
   - simpl. repeat constructor; unfold at_; simpl; lia.
 Qed.
+
+(* ---------------------------------------------------------------- the numpy code of selection TRANSLATED from the current
+   pyhms/core/population.py, sea.py and de.py (Gen/GenPop.v; a population = two aligned lists, np.argsort = any oracle permutation):
+   on the fitness keys it IS the selection model of the theorems above, and genomes travel with their fitness (rows stay together) *)
+Local Close Scope Z_scope.
+Theorem C12_translated_topk {G} (gdef : G) mx (p : pop (G:=G)) k order : aligned p -> pf (gen_topk gdef mx p k order) = topk mx k (pf p) order.
+Proof. exact (topk_fits gdef mx p k order). Qed.
+Print Assumptions C12_translated_topk.
+Theorem C12_translated_select_new_population {G} (gdef : G) mx k_elites (parents offspring : pop (G:=G)) o1 o2 : aligned parents -> aligned offspring ->
+  pf (gen_select_new_population gdef mx k_elites parents offspring o1 o2) = sea_select mx k_elites (pf parents) (pf offspring) o1 o2.
+Proof. exact (select_new_population_fits gdef mx k_elites parents offspring o1 o2). Qed.
+Print Assumptions C12_translated_select_new_population.
+Theorem C12_translated_DE_replacement {G} mx (trial parents : pop (G:=G)) :
+  pf (gen_DE_result trial parents (gen_DE_mask mx trial parents)) = de_select mx (pf trial) (pf parents).
+Proof. exact (DE_result_fits mx trial parents). Qed.
+Print Assumptions C12_translated_DE_replacement.
+Theorem C12_translated_SHADE_replacement {G} mx (trial parents : pop (G:=G)) :
+  pf (gen_SHADE_result trial parents (gen_SHADE_mask mx trial parents)) = de_select mx (pf trial) (pf parents).
+Proof. exact (SHADE_result_fits mx trial parents). Qed.
+Print Assumptions C12_translated_SHADE_replacement.
+Theorem C12_translated_rows_stay_together {G} (trial parents : pop (G:=G)) m : aligned trial ->
+  rows_of (gen_DE_result trial parents m) = pick m (rows_of trial) ++ pick (map negb m) (rows_of parents).
+Proof. exact (DE_result_rows trial parents m). Qed.
+Print Assumptions C12_translated_rows_stay_together.
